@@ -23,6 +23,7 @@ import (
 	. "github.com/pbenner/autodiff"
 	. "github.com/pbenner/autodiff/statistics"
 	"github.com/pbenner/autodiff/statistics/generic"
+	"github.com/pbenner/autodiff/statistics/matrixEstimator"
 	"github.com/pbenner/autodiff/statistics/scalarEstimator"
 	"github.com/pbenner/autodiff/statistics/vectorEstimator"
 	. "github.com/pbenner/threadpool"
@@ -870,6 +871,92 @@ func discreteLatticeScenario() emScenario {
 	}}
 }
 
+// ------------------------------------------------------------------ matrix-valued observations
+
+func matrixLL(pdf MatrixPdf, xs []ConstMatrix) float64 {
+	r := NullFloat64()
+	s := 0.0
+	for _, v := range xs {
+		if err := pdf.LogPdf(r, v); err != nil {
+			return math.NaN()
+		}
+		s += r.GetFloat64()
+	}
+	return s
+}
+
+// rows (normal-ish, count): the emission of a state is ScalarId(normal, poisson)
+func rowData(rng *rand.Rand, n int) ConstMatrix {
+	v := make([]float64, 2*n)
+	for i := 0; i < n; i++ {
+		c := float64(2*(i%2)) - 1
+		v[2*i] = math.Round((2*c+rng.NormFloat64())*16) / 16
+		v[2*i+1] = float64(rng.Intn(3) + (i%2)*3)
+	}
+	return NewDenseFloat64Matrix(v, n, 2)
+}
+
+func idEmission(rng *rand.Rand, mu, lambda float64) VectorEstimator {
+	e1, _ := scalarEstimator.NewNormalEstimator(mu+rng.Float64(), 1+rng.Float64(), 1e-2)
+	e2, _ := scalarEstimator.NewPoissonEstimator(lambda + rng.Float64())
+	v, err := vectorEstimator.NewScalarId(e1, e2)
+	if err != nil {
+		panic(err)
+	}
+	return v
+}
+
+// matrixEstimator.HmmEstimator: a sequence is a matrix (one row per position), emissions are vector estimators
+func matrixHmmScenario(name string, chunk int) emScenario {
+	return emScenario{name, func(rng *rand.Rand, epsilon float64, maxSteps int, emit func(emev)) (float64, error) {
+		nseq := 1 + rng.Intn(3)
+		xs := make([]ConstMatrix, nseq)
+		for i := range xs {
+			xs[i] = rowData(rng, 4+rng.Intn(8))
+		}
+		pieces := xs
+		if chunk > 0 {
+			pieces = nil
+			for _, x := range xs {
+				n, m := x.Dims()
+				for j := 0; j < n; j += chunk {
+					to := j + chunk
+					if to > n {
+						to = n
+					}
+					v := make([]float64, 0, (to-j)*m)
+					for a := j; a < to; a++ {
+						for b := 0; b < m; b++ {
+							v = append(v, x.Float64At(a, b))
+						}
+					}
+					pieces = append(pieces, NewDenseFloat64Matrix(v, to-j, m))
+				}
+			}
+		}
+		var est *matrixEstimator.HmmEstimator
+		hook := generic.BaumWelchHook{Value: func(h generic.BasicHmm, i int, l, e float64) {
+			d, _ := est.GetEstimate()
+			emit(emev{E: "hook", I: i, Nan: math.IsNaN(l), Lik: sc(l), Eps: sc(e), Recomp: sc(matrixLL(d, pieces))})
+		}}
+		a := 0.2 + 0.6*rng.Float64()
+		b := 0.2 + 0.6*rng.Float64()
+		pi := NewDenseFloat64Vector([]float64{0.6, 0.4})
+		tr := NewDenseFloat64Matrix([]float64{a, 1 - a, b, 1 - b}, 2, 2)
+		var err error
+		est, err = matrixEstimator.NewHmmEstimator(pi, tr, nil, nil, nil, []VectorEstimator{idEmission(rng, -2, 0.5), idEmission(rng, 1, 3)}, epsilon, maxSteps, hook)
+		if err != nil {
+			return 0, err
+		}
+		est.ChunkSize = chunk
+		if err := est.EstimateOnData(xs, nil, ThreadPool{}); err != nil {
+			return 0, err
+		}
+		d, _ := est.GetEstimate()
+		return matrixLL(d, pieces), nil
+	}}
+}
+
 func emScenarios() []emScenario {
 	return []emScenario{
 		mixtureScenario("smix-normal", normals, func(r *rand.Rand) []float64 { return normalData(r, 10+r.Intn(30), 2) }),
@@ -896,6 +983,8 @@ func emScenarios() []emScenario {
 			return x
 		}),
 		discreteLatticeScenario(),
+		matrixHmmScenario("mhmm-scalarid", 0),
+		matrixHmmScenario("mhmm-scalarid-chunked", 3),
 	}
 }
 
